@@ -530,6 +530,38 @@ def _iter_find(it, st, args, ctx):
     return outs
 
 
+@summary(r'^<' + _ITER_T + r' as Iterator>::partition::<')
+def _iter_partition(it, st, args, ctx):
+    """(items for which the predicate holds, the others), each in iteration order; one path per feasible verdict vector"""
+    m = iter_model(it, st, args[0])
+    outs = []
+    for s2, items in drain(it, st, m, ctx):
+        if isinstance(items, Panic):
+            outs.append((s2, items))
+            continue
+        work = [(s2, 0, [], [])]
+        while work:
+            s3, i, yes, no = work.pop()
+            if i == len(items):
+                outs.append((s3, Ret(Agg('tuple', [Agg('Vec', yes), Agg('Vec', no)]))))
+                continue
+            item = items[i]
+            arg = item if isinstance(item, Ptr) else Ptr(s3.alloc(item))
+            for s4, r in it.call_closure(s3, args[1], [arg], ctx):
+                if isinstance(r, Panic):
+                    outs.append((s4, r))
+                    continue
+                c = simp(to_bool(r.v))
+                if not z3.is_false(c) and it.feasible(s4, c):
+                    s5 = s4 if z3.is_true(c) else s4.fork()
+                    s5.assume(c)
+                    work.append((s5, i + 1, yes + [item], list(no)))
+                if not z3.is_true(c) and it.feasible(s4, z3.Not(c)):
+                    s4.assume(z3.Not(c))
+                    work.append((s4, i + 1, list(yes), no + [item]))
+    return outs
+
+
 def _opaque_ops_iter(it, st, v):
     while isinstance(v, Ptr):
         v = it.load(st, v)
